@@ -351,6 +351,13 @@ def run(ctx):
 
 
 def replay(ctx, rep):
+    if 'spec' not in rep:
+        # a "no failing input found" record: it names the obligation / correspondence that no longer checks;
+        # replaying means running the whole check again
+        print('no input in this replay file; recorded as broken:', json.dumps(rep.get('broken'))[:600])
+        run(ctx)
+        print('broken now:', ctx.broken)
+        return 1 if (ctx.broken or ctx.violations) else 0
     spec = rep['spec']
     M.regenerate_tables(ctx)
     kept, verdicts, _ = run_specs(ctx, [spec], 'replay')
